@@ -247,7 +247,35 @@ func init() {
 	m["strings.ToLower"] = pureStr("str_tolower", "(Str) Str", "Str", types.Typ[types.String])
 }
 
+// relyHavoc: between two atomic operations of the function under proof other goroutines may
+// change the cell within the declared rely relation (DESIGN §2.8).
+func (x *Exec) relyHavoc(s *State, loc *Loc) {
+	if !x.relyMode || loc.Kind != LocHeap {
+		return
+	}
+	var ts *TypeSpec
+	var field string
+	if origin, ok := s.cellOrigin[loc.Base]; ok {
+		ts, _, field = x.classify(origin)
+	} else {
+		ts, _, field = x.classify(loc.Path)
+	}
+	if ts == nil {
+		return
+	}
+	rel, ok := ts.Rely[field]
+	if !ok {
+		return
+	}
+	old := x.loadLoc(s, loc)
+	nv := x.freshVal(s, loc.Typ, "rely."+field)
+	x.storeLoc(s, loc, nv)
+	env := &Env{x: x, s: s, vars: map[string]Val{"old": old, "new": nv}, heap: s.heap, old: s.heap, events: s.events}
+	s.assume(env.evalBool(rel))
+}
+
 func (x *Exec) atomicAccess(s *State, loc *Loc) {
+	x.relyHavoc(s, loc)
 	if !x.checkOwn || loc.Kind != LocHeap {
 		return
 	}
